@@ -1428,7 +1428,10 @@ func handleYAMLError(err error) []*Error {
 // the position of its first property. However positions calculated from the node position (e.g.
 // the position of ${{ }} in a string value) assume that it is the position where the value starts.
 func skipNodeProperties(n *yaml.Node, lines []string) {
-	if n.Kind != yaml.AliasNode && (n.Anchor != "" || n.Style&yaml.TaggedStyle != 0) && 0 < n.Line && n.Line <= len(lines) {
+	// Note: The non-specific tag "!" is marked neither in Tag nor in Style of the node, so whether a
+	// node has properties cannot be known from the node. columnAfterNodeProperties checks it with the
+	// source. An empty node is skipped because it is positioned at the token following it.
+	if n.Kind != yaml.AliasNode && !(isNull(n) && n.Value == "") && 0 < n.Line && n.Line <= len(lines) {
 		n.Column = columnAfterNodeProperties([]rune(lines[n.Line-1]), n.Column)
 	}
 	for _, c := range n.Content {
@@ -1478,7 +1481,8 @@ func Parse(b []byte) (*Workflow, []*Error) {
 	// Uncomment for checking YAML tree
 	// dumpYAML(&n, 0)
 
-	skipNodeProperties(&n, strings.Split(string(b), "\n"))
+	// A byte order mark at the start of input is not counted as a character of the first line
+	skipNodeProperties(&n, strings.Split(strings.TrimPrefix(string(b), "\ufeff"), "\n"))
 
 	p := &parser{}
 	w := p.parse(&n)
